@@ -2,16 +2,23 @@
 (* Contract of every call on untrusted input (properties C13, C14): the call returns a value or an   *)
 (* error - it does not panic, terminate the process, or hang - and time and memory are bounded by a     *)
 (* linear function of the input size.  Records come from the sandboxed worker:                          *)
-(*   [entry, len, outcome : "value"|"error"|"panic"|"exit"|"timeout"|"signal", alloc (bytes), ms]       *)
+(*   [entry, len, outcome : "value"|"error"|"panic"|"exit"|"timeout"|"signal", alloc (bytes), ms, read] *)
 EXTENDS Integers, Sequences, TLC, Json
 CONSTANTS A0, A1,     \* allocation bound A0 + A1 * len (bytes)
-          T0, T1PerKiB  \* time bound T0 + T1PerKiB * (len / 1024) (milliseconds)
+          T0, T1PerKiB, \* time bound T0 + T1PerKiB * (len / 1024) (milliseconds)
+          R0, R1,       \* work bound: bytes pulled from the caller's reader <= R0 + R1 * len
+          Q0            \* what the library may keep allocated for itself after a long series of calls (bytes)
 VARIABLES k, done
 Calls == ndJsonDeserialize("calls.ndjson")
 Returned(r) == r.outcome \in {"value", "error"}
 MemoryBounded(r) == r.alloc <= A0 + A1 * r.len
 TimeBounded(r) == r.ms <= T0 + T1PerKiB * (r.len \div 1024)
-Allowed(r) == Returned(r) /\ MemoryBounded(r) /\ TimeBounded(r)
+(* machine-independent part of "time proportional to the input size": how much the call reads from the reader it was given *)
+WorkBounded(r) == r.read <= R0 + R1 * r.len
+(* a record that stands for a long series of calls (many distinct inputs, one after the other or from several goroutines at   *)
+(* once) also says what was still allocated afterwards: memory must not pile up with the number of inputs seen               *)
+RetainBounded(r) == r.retained <= Q0
+Allowed(r) == Returned(r) /\ MemoryBounded(r) /\ TimeBounded(r) /\ WorkBounded(r) /\ RetainBounded(r)
 Init == done = FALSE /\ k \in 1..Len(Calls)
 Next == ~done /\ done' = TRUE /\ UNCHANGED k
 Judge == done => IF Allowed(Calls[k]) THEN TRUE ELSE PrintT(<<"CALL_REJECTED", k>>)
